@@ -77,13 +77,25 @@ def cases(max_steps):
         # the history and the options first, the frame contents last (late draws are pinned to their minimal choice
         # for a share of Hypothesis's examples)
         fmt = draw(st.sampled_from(FORMATS))
+        label_kind = draw(st.sampled_from(['str', 'int', 'tuple', 'str'])) if fmt.startswith('zip') else 'str'
         k = draw(st.sampled_from([4, 3, 5, 2, 1]))
         mp = draw(st.sampled_from([x for x in (2, 3, None, 1, 4, 5) if x is None or x <= k]))
         workers = draw(st.sampled_from([None, 2, None]))
         steps = draw(st.lists(step(), min_size=1, max_size=max_steps))
         frames = [draw(frame_spec(fmt)) for _ in range(k)]
-        return {'fmt': fmt, 'frames': frames, 'max_persist': mp, 'steps': steps, 'workers': workers}
+        return {'fmt': fmt, 'frames': frames, 'max_persist': mp, 'steps': steps, 'workers': workers, 'label_kind': label_kind}
     return s()
+
+
+def _label_enc(x):
+    def py(v):
+        return v.item() if hasattr(v, 'item') else v
+    return repr(tuple(py(v) for v in x) if isinstance(x, tuple) else py(x))
+
+
+def _label_dec(s):
+    import ast
+    return ast.literal_eval(s)
 
 
 def _mk_frame(spec, name):
@@ -153,11 +165,15 @@ def check(case):
 def _check(case, tmp):
     fmt = case['fmt']
     fp = os.path.join(tmp, 'store.' + ('zip' if fmt.startswith('zip') else 'sqlite'))
-    names = ['f%d' % q for q in range(len(case['frames']))]
+    lk = case.get('label_kind', 'str')
+    # non-string labels go through the documented label_encoder / label_decoder pair of the store configuration
+    names = [{'str': 'f%d' % q, 'int': 10 * (q + 1), 'tuple': ('t', q)}[lk] for q in range(len(case['frames']))]
     written = [_mk_frame(spec, nm) for spec, nm in zip(case['frames'], names)]
     wkw = {}
     if case['workers'] and fmt.startswith('zip'):
         wkw = dict(read_max_workers=case['workers'], write_max_workers=case['workers'])
+    if lk != 'str':
+        wkw.update(label_encoder=_label_enc, label_decoder=_label_dec)
     config = sf.StoreConfigMap({nm: sf.StoreConfig(index_depth=spec['idepth'], columns_depth=1, include_index=True, include_columns=True, **wkw)
                                 for spec, nm in zip(case['frames'], names)}, default=sf.StoreConfig(**wkw))
     src = sf.Bus.from_frames(written)
@@ -185,7 +201,7 @@ def _check(case, tmp):
     main = BusModel(bus, names, mp)
     buses = [main]
     stale = False
-    classes = ['fmt:' + fmt, 'mp:%s' % ('none' if mp is None else ('1' if mp == 1 else ('n' if mp == len(names) else 'mid')))]
+    classes = ['labels:' + lk, 'fmt:' + fmt, 'mp:%s' % ('none' if mp is None else ('1' if mp == 1 else ('n' if mp == len(names) else 'mid')))]
     evicted_ever = set()
     reaccess_after_evict = False
     fault_then_access = False
@@ -234,7 +250,7 @@ def _check(case, tmp):
                 os.remove(fp)
             else:
                 alt = sf.Bus.from_frames([sf.Frame.from_records([(9, 9)], columns=('z', 'w'), index=('q',), name=nm) for nm in names])
-                getattr(alt, WRITERS[fmt])(other_fp, config=sf.StoreConfig(index_depth=1))
+                getattr(alt, WRITERS[fmt])(other_fp, config=sf.StoreConfig(index_depth=1, **({'label_encoder': _label_enc, 'label_decoder': _label_dec} if lk != 'str' else {})))
                 shutil.copyfile(other_fp, fp)
                 t = os.path.getmtime(fp) + 71.0
                 os.utime(fp, (t, t))
